@@ -160,10 +160,11 @@ def _apply(ip, con, env, f, args, kwargs):
     from .interp import PyRaise
     node = ip.program.node_of(f) if f is not None else None
     qn = con.qualname
-    if con.variants and len(con.variants) == 1:        # ghost constants of a single-member family (the operator of a class)
+    if con.variants:        # ghost constants shared by every member of the family (the operator of a class)
         from .contracts import Const
         for k, sh in con.variants[0].items():
-            if k not in env and isinstance(sh, Const):
+            if k not in env and isinstance(sh, Const) and all(
+                    isinstance(v.get(k), Const) and v[k].value is sh.value for v in con.variants):
                 env[k] = ip.wrap(sh.value)
     if con.requires is not None:
         req = z3.simplify(clause_bool(ip, con.requires, env, f"{qn}#requires"))
